@@ -26,95 +26,99 @@ Definition ex_pols : policies :=
                                (6, AllowOwner); (7, AllowOwner); (8, AllowOwner)]) [])].
 Definition ex_allowed : obj -> bool := allowed_of ex_pols (mkReq "alice" None).
 
-(* a type-guarded length filter with a certificate visible, and a date range *)
-Definition ex_filters : list afilter := [FObjType 2; FLen 256; FDate 105; FDate 99; FMask 4; FName "k1" 1].
+(* a length filter with a certificate in sight (the certificate has no length: no match), a date range,
+   a mask and a name filter *)
+Definition ex_filters : list afilter := [FLen 256; FDate 105; FDate 99; FMask 4; FName "k1" 1].
+Definition ex_ver : Z * Z := (1, 2).
 
-Ltac wf_tac := constructor; vm_compute; intros; try discriminate; try congruence.
+Ltac sc_tac :=
+  split; [ vm_compute filter; repeat (constructor; [split; [vm_compute; discriminate | vm_compute; tauto]|]); constructor
+         | split; vm_compute; [reflexivity | lia] ].
 
-Lemma ex_side_conditions : side_conditions ex_allowed ex_store ex_filters.
-Proof.
-  split; [|split].
-  - vm_compute filter. repeat (constructor; [wf_tac|]). constructor.
-  - split; vm_compute; [reflexivity | lia].
-  - vm_compute. reflexivity.
-Qed.
+Lemma ex_side_conditions : gate_ok ex_ver ex_filters = true /\ side_conditions ex_allowed ex_store ex_filters.
+Proof. split; [vm_compute; reflexivity | sc_tac]. Qed.
 
 Lemma ex_answer :
-  locate_model ex_allowed ex_store ex_filters None None = Ok [3; 6; 7] /\
-  locate_model ex_allowed ex_store ex_filters (Some 1) (Some 1) = Ok [6] /\
-  locate_model ex_allowed ex_store [] None None = Ok [3; 6; 4; 1; 2; 7].
+  locate_request ex_ver ex_allowed ex_store ex_filters None None = Ok [3; 6; 7] /\
+  locate_request ex_ver ex_allowed ex_store ex_filters (Some 1) (Some 1) = Ok [6] /\
+  locate_request ex_ver ex_allowed ex_store [] None None = Ok [3; 6; 4; 1; 2; 7].
 Proof. vm_compute. repeat split. Qed.
 
 Lemma ex_conj_side_conditions :
   filter_dates [FObjType 2; FLen 256] = [] /\
   side_conditions ex_allowed ex_store ([FObjType 2; FLen 256] ++ [FDate 105; FDate 99]) /\
   side_conditions ex_allowed ex_store [FDate 105; FDate 99].
-Proof.
-  split; [reflexivity|]. split.
-  - split; [|split].
-    + vm_compute filter. repeat (constructor; [wf_tac|]). constructor.
-    + split; vm_compute; [reflexivity | lia].
-    + vm_compute. reflexivity.
-  - split; [|split].
-    + vm_compute filter. repeat (constructor; [wf_tac|]). constructor.
-    + split; vm_compute; [reflexivity | lia].
-    + vm_compute. reflexivity.
-Qed.
+Proof. split; [reflexivity|]. split; sc_tac. Qed.
 
-(* ---------------------------------------------------------------- each side condition is needed *)
+(* ---------------------------------------------------------------- absent values never match *)
 
 Definition everyone : obj -> bool := fun _ => true.
 
-(* crash_free: an algorithm/length filter that reaches a visible certificate reads an attribute
-   X509Certificate does not have (GENERAL_FAILURE; recorded under C13, DESIGN F3) *)
-Lemma cert_length_filter_crashes :
-  locate_model everyone [ex_cert 2 "bob" 100] [FLen 128] None None = Crash.
+(* an algorithm/length filter does not match a certificate (it stores neither) and the request succeeds *)
+Lemma cert_length_filter_no_match :
+  locate_request ex_ver everyone [ex_cert 2 "bob" 100; ex_key 3 "alice" 101 128] [FLen 128] None None = Ok [3] /\
+  locate_spec everyone [ex_cert 2 "bob" 100; ex_key 3 "alice" 101 128] [FLen 128] None None = [3].
+Proof. vm_compute. split; reflexivity. Qed.
+
+(* a filter on an attribute the server keeps no value for (e.g. Activation Date) matches nothing *)
+Lemma unsupported_filter_matches_nothing :
+  locate_request ex_ver everyone [ex_key 1 "alice" 100 128] [FOther "Activation Date"] None None = Ok [] /\
+  locate_spec everyone [ex_key 1 "alice" 100 128] [FOther "Activation Date"] None None = [].
+Proof. vm_compute. split; reflexivity. Qed.
+
+(* a NULL column is an absent value *)
+Lemma null_length_no_match :
+  let o := mkObj 1 2 "alice" (Some "default") false 100 1 12 (Some 3) None 0 [] [] [] in
+  locate_request ex_ver everyone [o] [FLen 128] None None = Ok [] /\ locate_spec everyone [o] [FLen 128] None None = [].
+Proof. vm_compute. split; reflexivity. Qed.
+
+(* the version gate: Sensitive is a KMIP 1.4 attribute; an unknown name is refused under every version *)
+Lemma version_gate_examples :
+  locate_request (1, 0) everyone [ex_key 1 "alice" 100 128] [FSensitive false] None None = Refused /\
+  locate_request (1, 4) everyone [ex_key 1 "alice" 100 128] [FSensitive false] None None = Ok [1] /\
+  locate_request (2, 0) everyone [ex_key 1 "alice" 100 128] [FOther "No Such Attribute"] None None = Refused /\
+  locate_request (1, 0) everyone [ex_key 1 "alice" 100 128] [] None None = Ok [1].
+Proof. vm_compute. repeat split. Qed.
+
+(* ---------------------------------------------------------------- each remaining side condition is needed *)
+
+(* stored_type: the rule table makes the usage mask applicable to templates (type 6), which are never
+   stored and have no class carrying the field; for the seven stored types the table guarantees readability *)
+Lemma template_mask_filter_crashes :
+  let t := mkObj 1 6 "alice" (Some "default") false 100 0 0 None None 0 [] [] [] in
+  locate_request ex_ver everyone [t] [FMask 4] None None = Crash.
 Proof. vm_compute. reflexivity. Qed.
 
 (* wf_idate: `if initial_date.get("value")` treats an Initial Date of 0 as absent, so date filters are
    ignored for an object created at the epoch (not reachable with a real clock) *)
 Lemma epoch_date_filter_ignored :
-  locate_model everyone [ex_key 1 "alice" 0 128] [FDate 50] None None = Ok [1] /\
+  locate_request ex_ver everyone [ex_key 1 "alice" 0 128] [FDate 50] None None = Ok [1] /\
   locate_spec everyone [ex_key 1 "alice" 0 128] [FDate 50] None None = [].
 Proof. vm_compute. split; reflexivity. Qed.
 
-(* supported: a filter on an attribute the server keeps no value for is skipped (`continue`), e.g.
-   Activation Date; the property enumerates the thirteen filter kinds it speaks about *)
-Lemma unsupported_filter_ignored :
-  locate_model everyone [ex_key 1 "alice" 100 128] [FOther "Activation Date"] None None = Ok [1] /\
-  locate_spec everyone [ex_key 1 "alice" 100 128] [FOther "Activation Date"] None None = [].
-Proof. vm_compute. split; reflexivity. Qed.
-
-(* supported: usage-mask bits outside enums.CryptographicUsageMask are dropped by
+(* mask_ok: usage-mask bits outside enums.CryptographicUsageMask are dropped by
    get_enumerations_from_bit_mask before the comparison *)
 Lemma undefined_mask_bits_ignored :
-  locate_model everyone [ex_key 1 "alice" 100 128] [FMask (4 + 2 ^ 30)] None None = Ok [1] /\
+  locate_request ex_ver everyone [ex_key 1 "alice" 100 128] [FMask (4 + 2 ^ 30)] None None = Ok [1] /\
   locate_spec everyone [ex_key 1 "alice" 100 128] [FMask (4 + 2 ^ 30)] None None = [].
 Proof. vm_compute. split; reflexivity. Qed.
 
 (* wf_filters: a third Initial Date filter is refused - but only when some visible object reaches it *)
 Lemma third_date_filter :
-  locate_model everyone [ex_key 1 "alice" 100 128] [FDate 1; FDate 2; FDate 3] None None = TooMany /\
-  locate_model everyone [] [FDate 1; FDate 2; FDate 3] None None = Ok [] /\
-  locate_model everyone [ex_key 1 "alice" 100 128] [FObjType 1; FDate 1; FDate 2; FDate 3] None None = Ok [].
+  locate_request ex_ver everyone [ex_key 1 "alice" 100 128] [FDate 1; FDate 2; FDate 3] None None = TooMany /\
+  locate_request ex_ver everyone [] [FDate 1; FDate 2; FDate 3] None None = Ok [] /\
+  locate_request ex_ver everyone [ex_key 1 "alice" 100 128] [FObjType 1; FDate 1; FDate 2; FDate 3] None None = Ok [].
 Proof. vm_compute. repeat split. Qed.
-
-(* wf_alg / wf_len / wf_policy: a NULL column makes the loop `continue`, i.e. ignore the filter
-   (no such row can be created through the protocol: the kmip.pie constructors and the engine refuse) *)
-Lemma null_length_filter_ignored :
-  let o := mkObj 1 2 "alice" (Some "default") false 100 1 12 (Some 3) None 0 [] [] [] in
-  locate_model everyone [o] [FLen 128] None None = Ok [1] /\ locate_spec everyone [o] [FLen 128] None None = [].
-Proof. vm_compute. split; reflexivity. Qed.
 
 (* hence the refinement does not hold without side conditions *)
 Definition locate_refines_spec_unconditional : Prop :=
-  forall allowed objs fs off mx, nonneg off -> nonneg mx ->
-    locate_model allowed objs fs off mx = Ok (locate_spec allowed objs fs off mx).
+  forall ver allowed objs fs off mx, gate_ok ver fs = true -> nonneg off -> nonneg mx ->
+    locate_request ver allowed objs fs off mx = Ok (locate_spec allowed objs fs off mx).
 
 Lemma locate_refines_spec_unconditional_fails : ~ locate_refines_spec_unconditional.
 Proof.
-  intros H. specialize (H everyone [ex_cert 2 "bob" 100] [FLen 128] None None I I).
-  rewrite cert_length_filter_crashes in H. discriminate.
+  intros H. specialize (H ex_ver everyone [ex_key 1 "alice" 0 128] [FDate 50] None None eq_refl I I).
+  destruct epoch_date_filter_ignored as [E1 E2]. rewrite E1, E2 in H. discriminate.
 Qed.
 
 (* negative offset / maximum follow Python slice semantics (outside the theorems, inside the model) *)
